@@ -160,6 +160,8 @@ type materialized struct {
 	dirDigests []digest.Digest
 	dirBytes   [][]byte
 	fileDigest []digest.Digest
+	// Keys whose blob is missing or corrupted in the CAS.
+	badKeys map[string]bool
 }
 
 // encodeDir builds the REv2 Directory message of a template, children
